@@ -16,7 +16,7 @@ class C04(S.SchedCheck):
                  "correspondence = both real runs against the compiled model (request head flatpair, the model flattens with its own Spec.flatL)")
     level_text = ("flatten_transparent_partial: for every time type with LawfulTyme, 0 <= tock, every start/limit/fuel, every forest of leaves and transparent DoDoers at ANY nesting "
                   "depth (op-free, fault-free) whose leaf scripts satisfy guard G04 (positive* asap*), the nested run and the run of its flattening have the same kept-event "
-                  "sequence (every leaf event incl. enter order, recur steps, forced exits, done flags), done, final tyme, cycle count, raised.  regroup_transparent_partial: "
+                  "sequence (every leaf event incl. enter order, recur steps, forced exits, done flags), done, final tyme, cycle count, raised; flatten_transparent_doer_partial spells out resumption tymes and final done flag per doer; flatL_transparent_partial is the same for the function Spec.flatL the driver uses.  regroup_transparent_partial: "
                   "any two regroupings of the same flat program agree.  The unguarded statement is FALSE on the model: flatten_transparent_fails_at_asap_then_positive (decided "
                   "witness of pre-finding F46), replayed on the real code in corpus(); recorded as known finding C04-K1.  Transparent groups inside a DoDoer with tock > 0 are "
                   "covered by correspondence and oracle only (they hit the related known finding C04-K2).")
@@ -63,6 +63,7 @@ class C04(S.SchedCheck):
         return T.request_head("flatpair", case)
 
     def run_impl(self, case):
+        T.settle_heap()
         a = S.run_program(case)
         b = S.run_program(T.flatten_case(case))
         return T.PairObs(a, b)
